@@ -248,7 +248,7 @@ func (fc *FnCtx) appendBuiltin(cc *ssa.CallCommon, args []V, resTy types.Type, p
 	fits := fc.def("appfits", sBool, sx("bvsle", newLen, s.T[3]))
 	nb := fc.allocRef("appbase")
 	ncap := fc.fresh("appcap", sBV(64))
-	fc.assume(and(sx("bvsle", newLen, ncap), sx("bvult", ncap, bvLit(1<<48, 64))))
+	fc.assume(and(sx("bvsle", newLen, ncap), sx("bvult", ncap, bvLit(1<<46, 64))))
 	base := fc.def("appb", sInt, ite(and(fits, not(eq(s.T[0], "0"))), s.T[0], nb))
 	inplace := and(fits, not(eq(s.T[0], "0")))
 	// is the appended data a single element stored in a one-element varargs array?
@@ -534,6 +534,36 @@ func (fc *FnCtx) applyContractX(c *Contract, name string, args []V, sig *types.S
 	}
 	for _, en := range c.Ensures {
 		fc.assume(env2.evalBool(en.E))
+	}
+	// a function that implements an interface / function-type contract also gives what that contract promises
+	for _, impl := range c.Impl {
+		ic := fc.e.specs.Contracts["functype:"+impl]
+		if ic == nil {
+			ic = fc.e.specs.Contracts["iface:"+impl]
+		}
+		if ic == nil {
+			continue
+		}
+		env3 := fc.newEnv(fc.cur, old)
+		env3.vars = map[string]V{}
+		env3.oldAc = old.ac
+		names := ic.Params
+		if ic.Kind == "functype" {
+			names = names[1:]
+		}
+		for i, n := range names {
+			if i < len(args) {
+				env3.vars[n] = args[i]
+			}
+		}
+		for i, n := range ic.Results {
+			if i < len(c.Results) {
+				env3.vars[n] = env2.vars[c.Results[i]]
+			}
+		}
+		for _, en := range ic.Ensures {
+			fc.assume(env3.evalBool(en.E))
+		}
 	}
 	return res
 }
